@@ -1,5 +1,5 @@
 # replay of a bounded stand-in violation (C02): re-run native/c02_preps.py
 import sys
-print('BipartiteGraphEmbed(mean_photon_per_mode=1.7, edges=True) on modes (1, 3, 0, 2): total mean photon number 4.00000, requested 6.8')
+print('Gaussian(diagonal V_xx=0.9, V_pp=3.6) on modes [2]: decomposed and natively applied operation give different states (max difference 2.6)')
 print('REPLAY-VIOLATION')
 sys.exit(1)
